@@ -221,6 +221,9 @@ def fontuse(run, fx):
                 if k == 'UnaryOperator' and p.get('op') == '!':
                     cur = p['i']
                     continue
+                if k == 'UnaryOperator' and p.get('op') == '*':
+                    verdict = 'member call'          # (*font).scale(): the object is used, its null-ness is not
+                    break
                 if k == 'BinaryOperator' and p.get('op') in ('&&', '||', '==', '!='):
                     cur = p['i']
                     continue
